@@ -207,6 +207,20 @@ def incDirOf (entry : CStr) : Option CStr :=
   let p := if p = [] then ['.'] else p
   if legalPath p then some p else none
 
+/-- split at every ':' (never empty: `splitColon "" = [""]`) -/
+def splitColon : CStr → List CStr
+  | [] => [[]]
+  | c :: r =>
+    if c = ':' then [] :: splitColon r
+    else match splitColon r with
+      | [] => [[c]]
+      | h :: t => (c :: h) :: t
+
+/-- `set_inc_list (list)`: one slot per ':'-separated entry, `none` = dropped ("unsafe directory removed");
+    an empty list string leaves the search path alone (`none`) -/
+def incListOf (list : CStr) : Option (List (Option CStr)) :=
+  if list = [] then none else some ((splitColon list).map incDirOf)
+
 /-- `for (p = strchr (name, '.'); p; p = strchr (p + 1, '.')) if (p[1] == '.') return -1;` -/
 def hasDotDot : CStr → Bool
   | [] => false
